@@ -141,6 +141,14 @@ namespace TAO_PEGTL_NAMESPACE
          Control< Rule >::start( static_cast< const ParseInput& >( in ), st... );
          auto result = internal::match_control_unwind< Rule, A, ( use_guard ? rewind_mode::optional : M ), Action, Control >( in, st... );
          if( result ) {
+#if defined( __cpp_exceptions )
+            // An exception thrown by the action also passes through this rule, call unwind() for it, too.
+            [[maybe_unused]] internal::unwind_guard ug( [ & ] {
+               if constexpr( ( has_apply || has_apply0 ) && internal::has_unwind< Control< Rule >, void, const ParseInput&, States... > ) {
+                  Control< Rule >::unwind( static_cast< const ParseInput& >( in ), st... );
+               }
+            } );
+#endif
             if constexpr( has_apply_void ) {
                Control< Rule >::template apply< Action >( m.inputerator(), static_cast< const ParseInput& >( in ), st... );
             }
@@ -153,6 +161,9 @@ namespace TAO_PEGTL_NAMESPACE
             else if constexpr( has_apply0_bool ) {
                result = Control< Rule >::template apply0< Action >( static_cast< const ParseInput& >( in ), st... );
             }
+#if defined( __cpp_exceptions )
+            ug.unwind.reset();
+#endif
          }
          if( result ) {
             Control< Rule >::success( static_cast< const ParseInput& >( in ), st... );
